@@ -15,11 +15,13 @@ import (
 	"fmt"
 	"io"
 	"net/http"
+	"sort"
 	"strconv"
 	"strings"
 
 	"github.com/go-openapi/loads"
 	"github.com/go-openapi/runtime"
+	"github.com/go-openapi/runtime/middleware"
 	"github.com/go-openapi/runtime/middleware/untyped"
 	"github.com/go-openapi/runtime/security"
 )
@@ -389,4 +391,35 @@ func TagOf(c runtime.Consumer) string {
 		return v.Tag
 	}
 	return fmt.Sprintf("untagged:%T", c)
+}
+
+// RouteLooker is the part of middleware.Context NormaliseRoutes needs.
+type RouteLooker interface {
+	LookupRoute(*http.Request) (*middleware.MatchedRoute, bool)
+}
+
+// NormaliseRoutes removes the dependency-internal map-iteration order from a
+// built router: for every probed route the Produces and Consumes lists and the
+// consultation order of the schemes inside each security alternative are
+// sorted and then permuted by order (a stateless function of the salt).  The
+// slices share their backing arrays with the router's entries, so the change
+// is seen by every later request.
+func NormaliseRoutes(ctx RouteLooker, probes []*http.Request, order func(site int, keys []string)) {
+	for i, p := range probes {
+		route, ok := ctx.LookupRoute(p)
+		if !ok {
+			continue
+		}
+		fix := func(site int, l []string) {
+			sort.Strings(l)
+			if order != nil {
+				order(site, l)
+			}
+		}
+		fix(1000+i*10, route.Produces)
+		fix(1001+i*10, route.Consumes)
+		for j := range route.Authenticators {
+			fix(1002+i*10+j, route.Authenticators[j].Schemes)
+		}
+	}
 }
